@@ -84,6 +84,15 @@ func init() {
 		Real: []string{"portbase/config (instrumented)", "portbase/modules (instrumented; owner of the change event)", "portbase/log (instrumented, not started)", "config.json on the real file system in the scratch directory"},
 		Stub: []string{"database controller (nil: pushUpdate is a no-op)"},
 	}
+	dbPkgs := "log,database,database/iterator,database/storage/hashmap,database/storage/fstree,database/storage/bbolt,database/storage/badger"
+	props["C02"] = &propCfg{
+		Harness: "dbsim", Pkgs: dbPkgs, ExtPkgs: "go.etcd.io/bbolt,github.com/bluele/gcache", QuickRuns: 6000, ThoroughRuns: 300000, RunsPerProc: 150,
+		QuickWall: 75 * time.Second, ThoroughWall: 15 * time.Minute, Level: "exploration",
+		Rule: "one evaluation = one simulated run: a generated history of put, put-new, get, exists, delete, batch put, purge, absolute/relative expiry, record-state and full maintenance, queries (prefix incl. non-boundary prefixes, nested and/or/not over 17 operators), clock advances and cache clears through one database interface against backend in {hashmap, fstree, bbolt, badger} x shadow delete x cache {none, read cache, delayed-write cache}, compared step by step with a key-to-record map; plus producer/consumer schedules of a query that ends with an injected storage error; distinct = distinct hash of configuration + operation kinds; non-trivial = at least 2 goroutine switches",
+		Real: []string{"portbase/database incl. interface, controller, caches, iterator, maintenance (instrumented)", "storage backends hashmap, fstree (real directory), bbolt, badger (portbase side instrumented; bbolt/badger/gcache libraries real, uninstrumented)", "database/query, record, accessor (real)"},
+		Stub: []string{"simfault storage wrapper around hashmap for the query-error scenario (harness code)"},
+		Assume: []string{"single client goroutine for the equality clauses: third-party libraries are never entered by two goroutines at once"},
+	}
 	props["C20"] = &propCfg{
 		Harness: "logsim", Pkgs: "log", QuickRuns: 4000, ThoroughRuns: 150000, RunsPerProc: 100,
 		QuickWall: 70 * time.Second, ThoroughWall: 15 * time.Minute, Level: "exploration",
